@@ -78,6 +78,23 @@ def make_case(rng, profile_name, steps, wrap=False):
     return dict(case, ops=ops, profile=profile_name, wrap=wrap)
 
 
+def _settle(w, limit=400):
+    """Run pending tasks and deliver queued datagrams in order until nothing is left - WITHOUT firing any timer."""
+    for _ in range(limit):
+        progressed = False
+        for n in "AB":
+            if w.ep[n].tasks:
+                w.apply(["task", n])
+                progressed = True
+        for n in "AB":
+            if w.net[n]:
+                w.apply(["deliver", n, 0])
+                progressed = True
+                break
+        if not progressed:
+            return
+
+
 def make_reuse_case(rng, wrap=False):
     """Directed schedule: a channel with traffic is closed, both stream resets complete, a new channel
     re-uses the stream id and carries traffic under loss / reordering (state left behind by the old
@@ -116,8 +133,21 @@ def make_reuse_case(rng, wrap=False):
             w.apply(["drop", peer, len(w.net[peer]) - 1])
             held = True
     w.apply(["close", closer, 0])
-    w.heal(600)
-    w.apply(["create", rng.choice("AB"), dict(label="second", ordered=True)])
+    if held and rng.random() < 0.75:
+        # the reset handshake runs without any timer firing (the held-back chunk is still missing), the id is re-used, the
+        # new channel's OPEN arrives, and only then the old chunk shows up
+        _settle(w)
+        w.apply(["create", closer if rng.random() < 0.7 else peer, dict(label="second", ordered=True)])
+        _settle(w)
+        for n in "AB":
+            while w.stash[n]:
+                w.apply(["unstash", n, 0])
+                if w.net[n]:
+                    w.apply(["deliver", n, len(w.net[n]) - 1])
+        _settle(w)
+    else:
+        w.heal(600)
+        w.apply(["create", rng.choice("AB"), dict(label="second", ordered=True)])
     if rng.random() < 0.5:
         w.heal(400)
     prof = dict(PROFILES["reorder-frag"], channels=2, sizes=[1, 10, 100, 1300], loss=0.1, reorder=0.8, stash=0.0)
@@ -248,9 +278,10 @@ def make_early_case(rng, wrap=False):
         for _ in range(12):
             moved = False
             for n in "BA":
-                if w.net[n]:
-                    w.apply(["stash", n, 0])
-                    w.apply(["deliver", n, 0])
+                if w.net[n] and (len(w.net[n]) > 1 or rng.random() < 0.8):
+                    k = rng.randrange(len(w.net[n])) if rng.random() < 0.5 else 0      # later datagrams may overtake
+                    w.apply(["stash", n, k])
+                    w.apply(["deliver", n, k])
                     moved = True
                     if neg and w.ep[n].channels and rng.random() < 0.8:
                         w.salt += 1
